@@ -1196,11 +1196,13 @@ func (e *Enc) encodeSelect(fr *Frame, t *ssa.Select, st *State, reach Term) *Sta
 	if !t.Blocking {
 		lo = -1
 	}
-	e.B.assume(fmt.Sprintf("(and (<= %d %s) (< %s %d))", lo, idx, idx, n))
+	e.B.assume(fmt.Sprintf("(and (<= %s %s) (< %s %d))", ilit(int64(lo)), idx, idx, n))
 	tup := []Val{{T: idx, Typ: types.Typ[types.Int]}, {T: e.B.declConst("recvok", "Bool"), Typ: types.Typ[types.Bool]}}
 	for i, s := range t.States {
 		ch := e.val(fr, s.Chan)
 		chosen := fmt.Sprintf("(= %s %d)", idx, i)
+		// a case on a nil channel is never ready
+		e.B.assume(implies(chosen, "(not (= "+ch.T+" 0))"))
 		if s.Dir == types.SendOnly {
 			st = e.encodeSend(fr, ch, e.val(fr, s.Send), s.Send.Type(), st, reach, chosen)
 		} else {
